@@ -68,7 +68,7 @@ def actionJ : Action → Json
   | .exit1 => "EXIT1" | .symlink p => Json.str ("SYMLINK:" ++ policyJ p)
 
 def errJ : ErrKind → Json
-  | .badFilename => "bad" | .io => "io" | .rewriter => "rewriter" | .eof => "eof"
+  | .badFilename => "bad" | .io => "io" | .rewriter => "rewriter" | .eof => "eof" | .unsafeTarget => "unsafe"
 
 def nodeJ : Option Node → Json
   | none => Json.arr #["absent"]
@@ -122,7 +122,18 @@ def handle (j : Json) : Except String Json := do
     let fs := fsOf fsl
     let unreadable ← jNatList (← jarr j "unreadable")
     let unwritable ← jNatList (← jarr j "unwritable")
-    let env : Env := ⟨rwOf rwl, fun c => !unreadable.contains c, fun p => !unwritable.contains p⟩
+    -- realnames: `os.path.realpath` of every path that exists (a string); whether `Filename` accepts it is decided
+    -- here by the model's own `safeName` (a path without an entry has nothing to resolve: accepted)
+    let reall ← match j.getObjVal? "realnames" with
+      | .ok v => (← v.getArr?).toList.mapM fun e => do
+          let a ← e.getArr?
+          pure ((← a[0]!.getNat?), toStr (← a[1]!.getStr?))
+      | .error _ => pure []
+    let realSafe : Path → Bool := fun p => match reall.find? (fun x => x.1 == p) with
+      | some (_, s) => safeName s
+      | none => true
+    let env : Env := { rw := rwOf rwl, readable := fun c => !unreadable.contains c,
+                       writable := fun p => !unwritable.contains p, realSafe := realSafe }
     let parse := parseOptions keep tty opts
     let r := Pfb.C09.mainNamed env keep tty opts name fs args answers
     let refused := !(args.all fun p => safeName (name p))
